@@ -182,7 +182,7 @@ func main() {
 	}
 
 	// ---- 2. Extend
-	ne := run.Count(1100, 40000)
+	ne := run.Count(2500, 40000)
 	for i := 0; i < ne; i++ {
 		r := rng.Fork(uint64(i))
 		local := pickIA(r)
